@@ -203,11 +203,22 @@ def _expand(call, fn, is_method, kind, targets, counter):
     def simple(e):
         return isinstance(e, (ast.Name, ast.Constant)) or (isinstance(e, ast.Attribute) and simple(e.value))
 
+    def literal(e):
+        """a display of constants / simple expressions: may be written where the parameter is read (so that a loop over it can be unrolled)"""
+        if isinstance(e, ast.Dict):
+            return all(isinstance(k, ast.Constant) for k in e.keys) and all(simple(v) for v in e.values)
+        if isinstance(e, (ast.Tuple, ast.List)):
+            return all(simple(x) or (isinstance(x, (ast.Tuple, ast.List)) and all(simple(y) for y in x.elts)) for x in e.elts)
+        return False
+
+    mutated = {n.value.id for n in _own(fn) if isinstance(n, ast.Subscript) and isinstance(n.value, ast.Name) and not isinstance(n.ctx, ast.Load)} | \
+              {n.value.id for n in _own(fn) if isinstance(n, ast.Attribute) and isinstance(n.value, ast.Name) and n.attr in ("update", "pop", "setdefault", "clear", "append", "extend", "insert", "sort", "reverse", "remove", "popitem")}
+
     for p, v in bind.items():
         if isinstance(v, (ast.Dict, ast.Tuple)) and p in ((a.kwarg.arg if a.kwarg else None), (a.vararg.arg if a.vararg else None)) and p not in stored \
                 and all(simple(x) for x in (v.values if isinstance(v, ast.Dict) else v.elts)):
             mapping[p] = v
-        elif simple(v) and p not in stored:
+        elif (simple(v) or (literal(v) and p not in mutated)) and p not in stored:
             mapping[p] = v
         else:
             tmp = ast.Name(id=tag + p, ctx=ast.Store())
@@ -216,9 +227,18 @@ def _expand(call, fn, is_method, kind, targets, counter):
             ast.fix_missing_locations(asg)
             pre.append(asg)
             mapping[p] = ast.Name(id=tag + p, ctx=ast.Load())
+    # 'T = helper(..)' where the helper ends in 'return local': the helper's local IS T (no copy through a renamed temporary),
+    # provided T does not occur in the arguments
+    direct = None
+    if kind == "assign" and len(targets) == 1 and isinstance(targets[0], ast.Name):
+        rets_ = [n for n in _own(fn) if isinstance(n, ast.Return)]
+        last_ = fn.body[-1] if fn.body else None
+        if len(rets_) == 1 and rets_[0] is last_ and isinstance(last_.value, ast.Name) and last_.value.id in stored and last_.value.id not in bind \
+                and not any(isinstance(n, ast.Name) and n.id == targets[0].id for v in bind.values() for n in ast.walk(v)):
+            direct = last_.value.id
     for nm in stored:
         if nm not in bind:
-            mapping[nm] = ast.Name(id=tag + nm, ctx=ast.Load())
+            mapping[nm] = ast.Name(id=targets[0].id if nm == direct else tag + nm, ctx=ast.Load())
     body = copy.deepcopy(fn.body)
     if body and isinstance(body[0], ast.Expr) and isinstance(body[0].value, ast.Constant) and isinstance(body[0].value.value, str):
         body = body[1:]
@@ -237,6 +257,8 @@ def _expand(call, fn, is_method, kind, targets, counter):
                 e = ast.Expr(value=ret.value)
                 return [ast.copy_location(e, ret)]
             val = ret.value if ret.value is not None else ast.Constant(value=None)
+            if direct is not None and isinstance(val, ast.Name) and val.id == targets[0].id:
+                return []   # the local already carries the target's name
             asg = ast.Assign(targets=copy.deepcopy(targets), value=val)
             return [ast.copy_location(asg, ret)]
 
@@ -262,6 +284,59 @@ def _all_paths_leave(stmts):
     if isinstance(last, ast.If):
         return bool(last.orelse) and _all_paths_leave(last.body) and _all_paths_leave(last.orelse)
     return False
+
+
+def _literal_items(it):
+    """[(values for the loop targets)] when the loop runs over a literal: {..}.items(), a dict display (its keys), a tuple / list
+    display of constants or of equally long tuples; None otherwise."""
+    def const_like(e):
+        return isinstance(e, ast.Constant) or (isinstance(e, (ast.Name, ast.Attribute)) and const_like(getattr(e, "value", ast.Constant(value=0))) if isinstance(e, ast.Attribute) else isinstance(e, ast.Constant))
+    if isinstance(it, ast.Call) and isinstance(it.func, ast.Attribute) and it.func.attr in ("items", "keys", "values") and isinstance(it.func.value, ast.Dict) \
+            and not it.args and not it.keywords and all(isinstance(k, ast.Constant) for k in it.func.value.keys):
+        d = it.func.value
+        if it.func.attr == "items":
+            return [(k, v) for k, v in zip(d.keys, d.values)]
+        return [(k,) for k in d.keys] if it.func.attr == "keys" else [(v,) for v in d.values]
+    if isinstance(it, ast.Dict) and all(isinstance(k, ast.Constant) for k in it.keys):
+        return [(k,) for k in it.keys]
+    if isinstance(it, (ast.Tuple, ast.List)) and it.elts:
+        if all(isinstance(e, ast.Constant) for e in it.elts):
+            return [(e,) for e in it.elts]
+        if all(isinstance(e, (ast.Tuple, ast.List)) and len(e.elts) == len(it.elts[0].elts) for e in it.elts):
+            return [tuple(e.elts) for e in it.elts]
+    return None
+
+
+def unroll_literal_loops(tree, max_items=8, max_body=12):
+    """``for k, v in {"a": x, "b": y}.items(): BODY`` (a literal that became visible by inlining a helper) is BODY with
+    (k, v) = ("a", x) followed by BODY with (k, v) = ("b", y).  Only loops without break / continue / else whose targets are
+    plain names that the body does not rebind."""
+    n = 0
+    for holder in ast.walk(tree):
+        for field in ("body", "orelse", "finalbody"):
+            blk = getattr(holder, field, None)
+            if not (isinstance(blk, list) and blk and isinstance(blk[0], ast.stmt)):
+                continue
+            out = []
+            for st in blk:
+                items = _literal_items(st.iter) if isinstance(st, ast.For) and not st.orelse else None
+                tg = st.target if items is not None else None
+                names = [tg.id] if isinstance(tg, ast.Name) else [e.id for e in tg.elts] if isinstance(tg, ast.Tuple) and all(isinstance(e, ast.Name) for e in tg.elts) else None
+                if items is None or names is None or not (0 < len(items) <= max_items) or any(len(v) != len(names) for v in items) \
+                        or sum(1 for x in st.body for _ in ast.walk(x) if isinstance(_, ast.stmt)) > max_body \
+                        or any(isinstance(x, (ast.Break, ast.Continue, ast.FunctionDef, ast.Lambda, ast.Return, ast.Yield)) for b_ in st.body for x in ast.walk(b_)) \
+                        or any(isinstance(x, ast.Name) and x.id in names and not isinstance(x.ctx, ast.Load) for b_ in st.body for x in ast.walk(b_)):
+                    out.append(st)
+                    continue
+                for vals in items:
+                    mapping = dict(zip(names, vals))
+                    for b_ in copy.deepcopy(st.body):
+                        new = _Subst(mapping).visit(b_)
+                        ast.fix_missing_locations(new)
+                        out.append(new)
+                n += 1
+            setattr(holder, field, out)
+    return n
 
 
 def inline_free_helpers(tree):
@@ -337,4 +412,6 @@ def inline_free_helpers(tree):
         total = counter[0]
         if n_round == 0:
             break
+    if total:
+        unroll_literal_loops(tree)
     return total
